@@ -121,7 +121,7 @@ fn main() {
     let prop = Property {
         id: "C09",
         level: "exploration",
-        rule: "typestate automaton per writer instance (online in the monitoring writer, offline over its log) on: small sessions x every drop point (receiver dropped after each packet) x 9 writer scripts (open failing, write failing at call 1/2/last/n, builder Abort / ObjectAlreadyReceived, md5 off) x {in order, reversed, shuffled, lossy}; hand-written FDTs without FEC-OTI attributes (writer created inside push) for empty and non-empty objects; malformed histories (header substitutions, payload faults) with failing writers; a case is one (session, script, order) with all its drop points, non-trivial when at least one writer was created; distinct = (shape, script, order); monitor states = distinct abstract writer traces; fdt_without_oti announces Content-Length equal / larger / smaller / absent (absent together with Content-MD5), content-encoded cases with content that really compresses",
+        rule: "typestate automaton per writer instance (online in the monitoring writer, offline over its log) on: small sessions x every drop point (receiver dropped after each packet) x 9 writer scripts (open failing, write failing at call 1/2/last/n, builder Abort / ObjectAlreadyReceived, md5 off) x {in order, reversed, shuffled, lossy}; hand-written FDTs without FEC-OTI attributes (writer created inside push) for empty and non-empty objects; malformed histories (header substitutions, payload faults) with failing writers; a case is one (session, script, order) with all its drop points, non-trivial when at least one writer was created; distinct = (shape, script, order); monitor states = distinct abstract writer traces; fdt_without_oti announces Content-Length equal / larger / smaller / absent (absent together with Content-MD5), content-encoded cases with content that really compresses; content-encoded shapes of three source blocks of unequal size (3+2+2, 4+3+3, 7+6+6 symbols) are always part of small_x_script_x_drop; fdt_without_oti variant 6: every packet announces a source block of 0 symbols (cache replay and current packet both fail)",
         assumptions: vec![
             "several writers for one TOI are legal (re-download after error, receive-once off): the automaton is per writer instance".into(),
             "a writer whose open() failed is not 'opened': at most one error call is allowed, none is required".into(),
